@@ -366,6 +366,7 @@ int main(int argc, char** argv) {
   t.property_id = "C15";
   t.nontrivial_rule = "a consumer slept on a slot and was released by a futex_wake, or a publish_n / consume range crossed a 128-slot block";
   t.run_case = run_case;
+  t.eintr_percent = 25;  // futex_wait may return early (EINTR / spurious 0) in a quarter of the cases
   t.tune = tune;
   return vf::main_driver(argc, argv, t);
 }
